@@ -193,6 +193,7 @@ def lean_prove(prop_modules: list[str], extra_scan: Iterable[str] = ()) -> Proof
 
 
 def ensure_driver() -> None:
+    run([sys.executable, os.path.join(ROOT, "tools", "gen_driver_main.py")])
     with lake_lock():
         rc, out, err = run(["lake", "build", "driver"], cwd=LEAN_DIR, timeout=3000)
     if rc != 0 or not os.path.exists(DRIVER_BIN):
@@ -367,7 +368,7 @@ class Check:
             "evaluations": self.evaluations,
             "distinct_nontrivial": len(self.distinct),
             "rule": self.rule,
-            "samples": self.samples[:6] or ["(none)"],
+            "samples": [_shorten(x) for x in self.samples[:4]] or ["(none)"],
             "histogram": dict(sorted(self.hist.items())),
             "traces_validated_against_impl": self.traces_validated,
             "trusted_base": self.trusted,
@@ -399,6 +400,11 @@ class Check:
         with open(tmp, "w") as f:
             json.dump(ev, f, indent=1, sort_keys=True, default=str)
         os.replace(tmp, os.path.join(EVIDENCE_DIR, "%s.json" % self.pid))
+
+
+def _shorten(x: Any, limit: int = 2500) -> Any:
+    t = canon(x)
+    return x if len(t) <= limit else {"truncated": t[:limit] + "..."}
 
 
 def corpus_cases(pid: str) -> list[Any]:
